@@ -380,6 +380,8 @@ func c28CheckResolution(r *findings.Run, scratch, tag string, slots []c28Ref, al
 		// first: constraint of another database of the SAME plugin type configured before mydb ("\x00" = none).
 		// Every configured database resolves on its own: the other database must not influence mydb.
 		first string
+		// otherAfter: the other database is listed after mydb instead of before it
+		otherAfter bool
 	}
 	var jobs []job
 	nsub := 1 << len(alpha)
@@ -388,11 +390,11 @@ func c28CheckResolution(r *findings.Run, scratch, tag string, slots []c28Ref, al
 			pd := filepath.Join(scratch, fmt.Sprintf("res%s-%d-%d", tag, si, mask))
 			c28MakeTree(pd, []c28Plugin{{slot.Repo, slot.Name, c28Subset(alpha, mask)}}, true)
 			for _, c := range cons {
-				jobs = append(jobs, job{slot, mask, c, pd, "\x00"})
+				jobs = append(jobs, job{slot, mask, c, pd, "\x00", false})
 				if mask == nsub-1 || mask == nsub/2+1 {
 					for _, c1 := range cons {
 						if c1 != c {
-							jobs = append(jobs, job{slot, mask, c, pd, c1})
+							jobs = append(jobs, job{slot, mask, c, pd, c1, false}, job{slot, mask, c, pd, c1, true})
 						}
 					}
 				}
@@ -409,7 +411,11 @@ func c28CheckResolution(r *findings.Run, scratch, tag string, slots []c28Ref, al
 		yaml := c28Yaml(j.slot.Repo, j.slot.Name, j.constraint)
 		if j.first != "\x00" {
 			other := strings.Replace(c28Yaml(j.slot.Repo, j.slot.Name, j.first), "name: mydb", "name: other", 1)
-			yaml = other + strings.TrimPrefix(yaml, "databases:\n")
+			if j.otherAfter {
+				yaml = yaml + strings.TrimPrefix(other, "databases:\n")
+			} else {
+				yaml = other + strings.TrimPrefix(yaml, "databases:\n")
+			}
 		}
 		if err := os.WriteFile(filepath.Join(home, ".octosql", "octosql.yml"), []byte(yaml), 0o644); err != nil {
 			panic(err)
@@ -424,6 +430,9 @@ func c28CheckResolution(r *findings.Run, scratch, tag string, slots []c28Ref, al
 		label := c28ConstraintLabel(j.constraint)
 		if j.first != "\x00" {
 			label += "(after-another-database-of-the-same-plugin)"
+			if j.otherAfter {
+				label = c28ConstraintLabel(j.constraint) + "(before-another-database-of-the-same-plugin)"
+			}
 		}
 		replay := map[string]interface{}{"part": "resolution", "plugin": c28Plugin{j.slot.Repo, j.slot.Name, versions}, "constraint": label,
 			"config": yaml, "query": "SELECT * FROM mydb.t", "exit": res.Exit, "stderr": c28Trunc(res.Err), "executed": executed}
@@ -700,7 +709,7 @@ func init() {
 		r.Rule = "exhaustive: (1) every plugin tree = k distinct (repository,name) slots from {core,extra}x{a,a_b,my-db,x-y-z}, each with a non-empty subset of the 5 versions " +
 			"(quick k<=2 with all subsets; thorough additionally k=3 with 7 representative subsets each) -> ListInstalledPlugins must list exactly the installed (repository,name) pairs, " +
 			"each with exactly its versions, highest first; (2) slots (quick: core/a, extra/my-db; thorough: all 8) x version subset x 7 constraints: real binary, stub plugin binaries record which version directory is started -> " +
-			"must be the highest installed version satisfying the constraint (absent = '*'), or an error if none; (3) slots core/a (thorough also extra/my-db, extra/a_b, core/x-y-z) x manifest subset x 7 constraints: " +
+			"must be the highest installed version satisfying the constraint (absent = '*'), or an error if none; for two version subsets also with a second database of the same plugin under every other constraint, listed before and listed after the queried one (each database resolves on its own); (3) slots core/a (thorough also extra/my-db, extra/a_b, core/x-y-z) x manifest subset x 7 constraints: " +
 			"`plugin install` -> printed and requested version = highest matching (absent: highest non-prerelease), or an error if none. " +
 			"a second alphabet B of prereleases of one release (numeric identifier order) is used for single-plugin discovery and, in thorough, for (2) and (3) with core/a. " +
 			"non-trivial: a case with >=2 versions (order matters) or a dashed name"
